@@ -151,7 +151,9 @@ class Gen:
             td.leafpaths.append(("last", "int"))
         attr = ""
         if packed:
-            attr = " __attribute__((packed))"
+            # the spellings attr.c accepts for the one attribute it implements (GNU and C23 syntax, with and without underscores)
+            attr = " " + self.draw(st.sampled_from(["__attribute__((packed))", "__attribute__((packed))", "__attribute__((__packed__))", "[[gnu::packed]]", "[[__gnu__::__packed__]]",
+                                                    "[[gnu::__packed__]]", "__attribute__((unused, packed))", "[[maybe_unused]] [[gnu::packed]]"]))
             td.flags.add("packed")
         td.nmembers = len(members)
         td.text = "%s%s %s { %s }" % (kind, attr, tag, " ".join(members))
